@@ -145,6 +145,9 @@ func (vs *varStore) nonLocalVarIndex(v ast.Expression) (index int, ok bool) {
 	case *ast.Selector:
 		switch e := v.Expr.(type) {
 		case *ast.Identifier:
+			if !vs.emitter.isPackageName(e) {
+				return 0, false
+			}
 			name = v.Ident
 			fullName = e.Name + "." + v.Ident
 		default:
